@@ -202,6 +202,21 @@ def selectDU (disc : Nat) (dmap : List (Nat × Mid)) (v : V) : Option (Option Mi
     (lookupKey disc (es.getD [])).map (fun dv => lookupDisc dv dmap)
   | _ => none
 
+/-! ### `Object.Required` as documented ("makes all fields required, or specific fields if provided")
+
+  a field named by the call (every field for `Required()`) must be present — whatever its schema's own Optional flag
+  and whatever an earlier `Partial` said; the fields not named keep their state. -/
+def requiredDoc (r : Option ReqCall) (shape : List Field) (p : Partial) : List Field × Partial :=
+  match r with
+  | none => (shape, p)
+  | some r =>
+    let named (f : Field) : Bool := match r with
+      | .all => true
+      | .keys ks => ks.contains f.name
+    let stillPartial := (shape.filter (fun f => fieldOptional p { f with optional := false } && !named f)).map (·.name)
+    (shape.map (fun f => if named f then { f with optional := false } else f),
+     if p.on then { on := true, exceptions := some ((shape.map (·.name)).filter (fun k => !stillPartial.contains k)) } else p)
+
 /-! ### discriminated union over its option LIST (written without building an index)
 
   an option is SELECTED by a discriminator value iff it declares that value.  The option list is well-formed iff
@@ -298,9 +313,11 @@ def reason0 (env : Env) (n : Node) (v : V) : String :=
     if v.isNilLike && typedNilOfKind n v then "typed-nil-container-rejected" else "other"
 
 def reason (env : Env) (n : Node) (v : V) : String :=
-  if hasOverwrite (nodeChecks n) && !v.isNilLike && ptrPath n v then "overwrite-skips-validation"
-  else if v.isNilLike && nilOK (modsOf n) && (nodeChecks n).any (fun c => match c with | .custom _ => true | _ => false)
+  if v.isNilLike && nilOK (modsOf n) && (nodeChecks n).any (fun c => match c with | .custom _ => true | _ => false)
     then "refinement-runs-on-nil"
-  else reason0 env n v
+  else match reason0 env n v with
+    | "other" =>
+      if hasOverwrite (nodeChecks n) && !v.isNilLike && ptrPath n v then "overwrite-skips-validation" else "other"
+    | r => r
 
 end Gozod.Cont.Spec
